@@ -27,8 +27,10 @@ let handle (line : string) : string =
   | ["SV"; chunks] ->
     let cl = List.map bytes_of_hex (split_on ';' chunks) in
     let (s, acts) = run_server { s_buf = []; s_closed = false } cl in
-    let al = List.map (function SRequest raw -> "Q:" ^ hx raw | SClose -> "K") acts in
-    String.concat " " (al @ [Printf.sprintf "buf=%d" (List.length s.s_buf)])
+    let al = List.map (function SRequest (raw, _) -> "Q:" ^ hx raw | SClose -> "K") acts in
+    let hl = List.filter_map (function SRequest (_, body) -> Some (hx body) | SClose -> None) acts in
+    String.concat " " (al @ [Printf.sprintf "buf=%d" (List.length s.s_buf);
+                             "H=" ^ (if hl = [] then "none" else String.concat "," hl)])
   | ["PCL"; v] ->
     (match parse_content_length (bytes_of_hex v) with Some n -> ns n | None -> "ERR")
   | ["TE"; v] -> bool_s (te_final_is_chunked (bytes_of_hex v))
